@@ -627,6 +627,13 @@ def module_level_names(tree):
     return out
 
 
+def encode(s):
+    n = 0
+    for ch in s:
+        n = n * 256 + ord(ch)
+    return n
+
+
 def lean_steps(steps, indent='      '):
     rows = []
     for conds, catch, tid, act in steps:
@@ -647,14 +654,14 @@ def branch_test(test):
     if isinstance(first, ast.Compare) and len(first.ops) == 1 and isinstance(first.left, ast.Name) and first.left.id == 'word':
         r = first.comparators[0]
         if isinstance(first.ops[0], ast.Eq) and isinstance(r, ast.Constant):
-            return f'.wordEq {lean_str(r.value)}', first is test
+            return f'.wordEq {lean_str(r.value)} {encode(r.value)}', first is test
         if isinstance(first.ops[0], ast.In) and isinstance(r, (ast.List, ast.Tuple)) and all(isinstance(e, ast.Constant) for e in r.elts):
-            return '.wordIn ' + lean_list([lean_str(e.value) for e in r.elts]), first is test
+            return '.wordIn ' + lean_list([lean_str(e.value) for e in r.elts]) + ' ' + lean_list([str(encode(e.value)) for e in r.elts]), first is test
     if isinstance(first, ast.Call) and isinstance(first.func, ast.Attribute) and first.func.attr == 'startswith' \
             and isinstance(first.func.value, ast.Name) and first.func.value.id == 'line' and len(first.args) == 1:
         a = first.args[0]
         if isinstance(a, ast.Constant):
-            return f'.starts {lean_str(a.value)}', first is test
+            return f'.starts {lean_str(a.value)} {encode(a.value)}', first is test
         return 'RESET', False          # line.startswith(('END', 'HKLF')) and self.xxx : context reset block
     if isinstance(first, ast.Call) and isinstance(first.func, ast.Attribute) and first.func.attr == 'is_atom':
         return '.isAtom', first is test
@@ -793,7 +800,26 @@ def c02_tables(repo: Path, out: Path):
     # write -------------------------------------------------------------------------------------------------------
     txt = [HEADER, 'import ShelxModel.C02', 'namespace Shelx.C02.Extracted', 'open Shelx.C02', '']
     txt.append('def shxCards : List String := ' + lean_list([lean_str(s) for s in shx_cards]))
+    # (codes of the right-stripped entries: `word` of the model is right-stripped)
+    txt.append('def shxCodes : List Nat := ' + lean_list([str(encode(s)) for s in shx_cards]))
     txt.append(f'def atomMinCols : Nat := {mincols}')
+    txt.append('def dispatch : List Branch := [')
+    txt.append(',\n'.join(f'  {{ test := {t},\n    steps := {lean_steps(s)} }}' for t, s in branches))
+    txt.append(']')
+    order = {n: i for i, (n, _) in enumerate(card_rows)}
+
+    def fix_idx(steps):
+        out = []
+        for conds, catch, tid, act in steps:
+            if act.startswith('.card '):
+                nm = act[len('.card '):].strip().strip('"')
+                act = f'.card {lean_str(nm)} {order.get(nm, 9999)}'
+            out.append((conds, catch, tid, act))
+        return out
+    branches = [(t, fix_idx(s)) for t, s in branches]
+    txt = [x for x in txt if not x.startswith('def dispatch') ]
+    # re-emit the dispatch with resolved card indices
+    txt = txt[:txt.index(next(x for x in txt if x.startswith('def atomMinCols'))) + 1]
     txt.append('def dispatch : List Branch := [')
     txt.append(',\n'.join(f'  {{ test := {t},\n    steps := {lean_steps(s)} }}' for t, s in branches))
     txt.append(']')
@@ -802,7 +828,7 @@ def c02_tables(repo: Path, out: Path):
     txt.append(']')
     txt.append(f'def dotNumeric : Bool := {"true" if dot else "false"}')
     txt.append(f'def atomRejectsBig : Bool := {"true" if rejects_big else "false"}')
-    txt.append('def tables : Tables := { shxCards := shxCards, dispatch := dispatch, cards := cards, atomMinCols := atomMinCols,\n'
+    txt.append('def tables : Tables := { shxCards := shxCards, shxCodes := shxCodes, dispatch := dispatch, cards := cards, atomMinCols := atomMinCols,\n'
                '                         dotNumeric := dotNumeric, atomRejectsBig := atomRejectsBig, assumedFalse := assumed }')
     txt.append('end Shelx.C02.Extracted')
     write_if_changed(out / OUT, '\n'.join(txt) + '\n')
